@@ -143,6 +143,8 @@ type Sim struct {
 	mapSalt     uint64
 	mapState    uint64
 	mapPerms    int
+	selSalt     uint64
+	selState    uint64
 	StopOnFail  bool
 	simEnd      time.Duration
 	stateHashes []uint64
